@@ -22,6 +22,17 @@ use std::time::Instant;
 
 thread_local! {
     static CUR: Cell<(u64, &'static str)> = const { Cell::new((u64::MAX, "")) };
+    /// the history being executed right now, encoded (read by the panic hook on a non-unwinding panic)
+    static CUR_HIST: std::cell::RefCell<String> = const { std::cell::RefCell::new(String::new()) };
+}
+
+fn set_cur(run: u64, module: &'static str, hist: &[Event]) {
+    CUR.with(|c| c.set((run, module)));
+    CUR_HIST.with(|h| {
+        let mut h = h.borrow_mut();
+        h.clear();
+        h.push_str(&encode_history(hist));
+    });
 }
 
 fn arg<'a>(args: &'a [String], name: &str) -> Option<&'a str> {
@@ -309,7 +320,14 @@ pub fn main(modules: &'static [&'static Module]) -> ! {
             || msg.contains("invalid enum")
         {
             let (run, module) = CUR.with(|c| c.get());
-            eprintln!("FATAL-UB run={} module={} msg={}", run as i64, module, msg);
+            let hist = CUR_HIST.with(|h| h.try_borrow().map(|h| h.clone()).unwrap_or_default());
+            eprintln!(
+                "FATAL-UB run={} module={} hist=[{}] msg={}",
+                run as i64,
+                module,
+                hist,
+                msg.replace('\n', " ")
+            );
         }
     }));
     match cmd {
@@ -331,7 +349,7 @@ pub fn main(modules: &'static [&'static Module]) -> ! {
                 .and_then(decode_history)
                 .unwrap_or_else(|| die("--history"));
             validate(modules);
-            CUR.with(|c| c.set((u64::MAX, m.name)));
+            set_cur(u64::MAX, m.name, &hist);
             let rr = run_history(
                 m,
                 &hist,
@@ -406,6 +424,8 @@ fn run_cmd(modules: &'static [&'static Module], args: &[String]) -> ! {
     let pairs = arg(args, "--pairs").map(|s| s == "1").unwrap_or(false);
     let out_path = arg(args, "--out");
     let max_viol: usize = arg(args, "--max-violations").and_then(|s| s.parse().ok()).unwrap_or(6);
+    let pair_from: u64 = arg(args, "--pair-from").and_then(|s| s.parse().ok()).unwrap_or(0);
+    let pair_to: u64 = arg(args, "--pair-to").and_then(|s| s.parse().ok()).unwrap_or(u64::MAX);
     let trace = arg(args, "--trace").map(|s| s == "1").unwrap_or(false);
     let hang_s: u64 = arg(args, "--hang-s").and_then(|s| s.parse().ok()).unwrap_or(60);
     validate(modules);
@@ -471,9 +491,15 @@ fn run_cmd(modules: &'static [&'static Module], args: &[String]) -> ! {
             for &i in &idxs {
                 for &j in &idxs {
                     for h in pair_histories(i, j) {
-                        CUR.with(|c| c.set((u64::MAX - 1, m.name)));
-                        let rr = run_history(m, &h, &opts);
                         pairs_runs += 1;
+                        if pairs_runs <= pair_from || pairs_runs > pair_to {
+                            continue;
+                        }
+                        set_cur(u64::MAX - 1, m.name, &h);
+                        if trace {
+                            eprintln!("PAIR {} [{}]", m.name, encode_history(&h));
+                        }
+                        let rr = run_history(m, &h, &opts);
                         total.add_run(u64::MAX - pairs_runs, mi, m, &h, &rr.stats, rr.stats.obs_digest);
                         if let Some(v) = rr.violation {
                             report(-(pairs_runs as i64), m, &h, v);
@@ -508,7 +534,7 @@ fn run_cmd(modules: &'static [&'static Module], args: &[String]) -> ! {
             let b = (a + 256).min(end);
             for idx in a..b {
                 let (m, hist) = gen_run(&el, prop, seed, idx);
-                CUR.with(|c| c.set((idx, m.name)));
+                set_cur(idx, m.name, &hist);
                 if trace {
                     eprintln!("RUN {} {}", idx, m.name);
                 }
